@@ -1,7 +1,11 @@
 use crate::fw::Check;
 
+pub mod c01;
+pub mod c02;
+pub mod c13;
 pub mod c15;
+pub mod c16;
 
 pub fn all() -> Vec<Box<dyn Check>> {
-    vec![Box::new(c15::C15)]
+    vec![Box::new(c01::C01), Box::new(c02::C02), Box::new(c13::C13), Box::new(c15::C15), Box::new(c16::C16)]
 }
